@@ -34,7 +34,7 @@ CHECKS = {
  },
  "C18": {
   "category": "exploration",
-  "text": "Seeded simulation of the real generic optimisers (SUA and incremental mix-ins; linear and binary search; single, boxed, lexicographic, Pareto) against a simulated satisfiability peer whose model choice at every step is a scheduling decision on the tape (uniform / adversarial worst-progress / best-progress / first), embedded in user push/pop/assert histories. Optimum, model, 'None iff unsat', Pareto front, termination bound and stack restoration are checked against brute-force enumeration on the harness's own blueprint evaluator. Sampling, not proof.",
+  "text": "Seeded simulation of the real generic optimisers (SUA and incremental mix-ins; linear and binary search; single, boxed, lexicographic, Pareto) against a simulated satisfiability peer whose model choice at every step is a scheduling decision on the tape (uniform / adversarial worst-progress / best-progress / first), embedded in user push/pop/assert histories, with partial (possibly empty) models, goal objects kept and modified by the client, Pareto iteration abandoned by the caller, and an injected 'unknown' at the k-th check (after which the stack must still be restored). Optimum, model, 'None iff unsat', Pareto front, termination bound and stack restoration are checked against brute-force enumeration on the harness's own blueprint evaluator. Sampling, not proof.",
   "design_ref": "DESIGN.md section 4 (C18)",
   "note": "Trusted: blueprint evaluator (dsim/bp.py), FNode evaluator used inside the peer (dsim/feval.py), reference stack model. Domains are finite and small (<=512 assignments); systems, goals and histories are sampled. Real-valued bisection excluded as the property says.",
   "technique": "deterministic simulation: optimiser loop vs. tape-scheduled model-choosing peer, brute-force reference oracle, bounded-liveness (solver-call budget), minimisation + exact replay",
